@@ -9,7 +9,16 @@ C06_variant).  Correspondence (programs): gen/items.py generates item definition
     init-hook count, compared with `ser`/`dec` of documented_sem through the driver ops enc/dec.
 Property oracles on the implementation alone: round trip; tag byte == discriminant computed by rustc
 (`Variant as isize` / repr read) under use_discriminant = true, == position otherwise;
-deserialize_variant(r, tag) == deserialize(tag :: r); init counter == 1 on success, 0 on failure.
+deserialize_variant(r, tag) == deserialize(tag :: r) (value, rest, hook calls, skipped fields); init counter == 1 on
+success, 0 on failure.  The hook and the skipped fields are observed on the decoded OBJECT: items with `init` carry two
+skipped fields their generated hook rewrites (`init_calls` += 1, `init_sum` = checksum of the object's non-skipped integer
+fields); after every decode (deserialize, deserialize_variant, and the five other public entry points) every skipped field
+must hold Default and those two exactly what ONE call on the decoded object leaves; the values that get ENCODED hold
+non-default contents in their skipped fields.
+Two more builds of generated items (lib/deriveconf.py): the whole corpus against `borsh = { features = ["derive"] }`
+(borsh-derive without its `schema` feature: same bytes, round trip), and a sample of shapes with all three derives and
+`#[borsh(crate = "reexporter::borsh")]` in a crate that has no dependency called borsh (positive: builds, encodes like the
+model, round-trips, schema validates; negative control: without the attribute every derive panics with CrateNotFound).
 Separate small crates: hygiene probe (macro-internal identifiers as field names at every position kind;
 F10) and the discriminant run-time probes (F11, F12)."""
 import random
@@ -20,6 +29,7 @@ from codec import *  # noqa
 from derivelib import *  # noqa
 from values import gen_val, show
 import boundscorr
+import deriveconf
 
 PID = 'C06'
 CFG = 'std-loose'        # derive_harness is built without de_strict_order
@@ -31,8 +41,41 @@ def tier_par(tier):
     return {'items': 170, 'seeds': 1, 'values': 6, 'size': 6}
 
 
-def gen_cases(items, rng, par):
+def is_default(t, v):
+    """v (generator form) is what Default::default() of the Rust type is"""
+    k = t[0]
+    if k == 'prim':
+        return v == 0
+    if k in ('text', 'seq'):
+        return not v[1]
+    if k == 'sum':
+        return v[1] == 0
+    if k in ('prod', 'array'):
+        ts = t[2] if k == 'prod' else [t[2]] * t[1]
+        return all(is_default(x, y) for x, y in zip(ts, v[1]))
+    if k == 'wrap':
+        return is_default(t[2], v)
+    return True
+
+
+def nondefault_skipped(pt, pv, rng2, size, stats):
+    """pt: the product type of a struct / variant, pv its value: skipped fields that happen to hold their Default are
+    regenerated (own random stream: the rest of the corpus is untouched), so that a decoder that passed the encoded
+    object's contents through, or did not reset them, would show"""
+    skips = pt[1][-1]
+    for i, (t, sk) in enumerate(zip(pt[2], skips)):
+        if not sk:
+            continue
+        for _ in range(12):
+            if not is_default(t, pv[1][i]):
+                break
+            pv[1][i] = gen_val(t, rng2, size)
+        stats['skipped_values_nondefault' if not is_default(t, pv[1][i]) else 'skipped_values_default_only'] += 1
+
+
+def gen_cases(items, rng, par, stats=None):
     cases = []
+    stats = stats if stats is not None else Counter()
     for tid, it in enumerate(items):
         vt = I.value_ty(it)
         n = par['values']
@@ -42,6 +85,11 @@ def gen_cases(items, rng, par):
             v = gen_val(vt, rng, par['size'])
             if it['kind'] == 'enum' and j < len(it['variants']):
                 v = ('v', j, gen_val(vt[2][j], rng, par['size']))     # every variant of small enums at least once
+            rng2 = random.Random('%d/%d/%d' % (tid, j, len(items)))
+            if it['kind'] == 'struct':
+                nondefault_skipped(vt, v, rng2, par['size'], stats)
+            else:
+                nondefault_skipped(vt[2][v[1]], v[2], rng2, par['size'], stats)
             cases.append(('i%d_%d' % (tid, j), tid, I.doc_ty(it), show(v), v))
     return cases
 
@@ -169,7 +217,10 @@ def run_seed(tier, seed, par, driver, stats, disagreements, failures, classes, d
     stats['items'] += len(items)
     # describe(): the harness's own idea of each item's type is the generator's
     tmap = {tid: I.doc_ty(it) for tid, it in enumerate(items)}
-    cases = gen_cases(items, rng, par)
+    vstats = Counter()
+    cases = gen_cases(items, rng, par, vstats)
+    for k_, v_ in vstats.items():
+        stats[k_] = stats.get(k_, 0) + v_
     recs = stage_enc(CFG, exe, driver, [(cid, tid, t, v) for cid, tid, t, v, _ in cases])
     stats['evaluations'] += len(recs)
     byitem = {}
@@ -208,7 +259,7 @@ def run_seed(tier, seed, par, driver, stats, disagreements, failures, classes, d
         if r is None or '\t' not in r:
             disagreements.append({'what': 'decinit: no answer for item %s input %s: %s' % (it['name'], h, r)})
             continue
-        res, init = r.split('\t')
+        res, init, skipped = r.split('\t')
         classes['dec:' + error_class(res)] += 1
         if res == 'err InvalidData User:7' and any(f['with'] is not None for f in I.all_item_fields(it)):
             # the generated deserialize_with function refused a value outside the narrower Rust type:
@@ -223,6 +274,14 @@ def run_seed(tier, seed, par, driver, stats, disagreements, failures, classes, d
             failures.append({'class': 'init-count', 'key': it['name'],
                              'what': 'init hook of %s ran %s times, expected %s (input %s -> %s)' % (it['name'], init, want, h, res[:80]),
                              'item': I.rust_item(it), 'input': h})
+        # the decoded OBJECT: skipped fields hold Default; the fields the hook rewrites hold what one call leaves
+        if res.startswith('ok'):
+            stats['skipped_checked'] = stats.get('skipped_checked', 0) + (1 if any(f['skip'] for f in I.all_item_fields(it)) else 0)
+            stats['hook_on_value_checked'] = stats.get('hook_on_value_checked', 0) + (1 if any(f.get('hook') for f in I.all_item_fields(it)) else 0)
+        if skipped != ('skipped=ok' if res.startswith('ok') else 'skipped=-'):
+            failures.append({'class': 'skipped-field-content', 'key': it['name'],
+                             'what': 'object of %s decoded from %s: %s' % (it['name'], h, skipped[:300]),
+                             'item': I.rust_item(it), 'input': h})
     # ---- deserialize_variant, tag == discriminant, round trip: on the implementation alone
     olines = []
     meta = {}
@@ -230,6 +289,8 @@ def run_seed(tier, seed, par, driver, stats, disagreements, failures, classes, d
         if items[tid]['kind'] == 'enum' and h != '-':
             olines.append(case_line('v' + cid, 'devar', tid, sexp(t), h))
             meta['v' + cid] = ('devar', tid, h)
+        olines.append(case_line('e' + cid, 'entries', tid, sexp(t), h))
+        meta['e' + cid] = ('entries', tid, h)
     for cid, tid, t, v, raw in cases:
         it = items[tid]
         if it['kind'] == 'enum':
@@ -249,10 +310,25 @@ def run_seed(tier, seed, par, driver, stats, disagreements, failures, classes, d
         if r.startswith('skip'):
             continue
         if op == 'devar':
-            a, _, b = r.partition('\t')
+            f_ = r.split('\t')
+            a, b = f_[:3], f_[3:]
             if a != b:
                 failures.append({'class': 'deserialize-variant', 'key': it['name'],
-                                 'what': 'deserialize_variant(r, tag) = %s but deserialize(tag :: r) = %s on %s input %s' % (a[:120], b[:120], it['name'], arg),
+                                 'what': 'deserialize_variant(r, tag) = %s but deserialize(tag :: r) = %s on %s input %s'
+                                         % (' '.join(a)[:200], ' '.join(b)[:200], it['name'], arg),
+                                 'item': I.rust_item(it), 'input': arg})
+            # the direct path on its own: hook once on success / never on failure, skipped fields as required
+            ok_ = a[0].startswith('ok')
+            want = ['init=' + ('-' if not it.get('init') else ('1' if ok_ else '0')), 'skipped=' + ('ok' if ok_ else '-')]
+            if a[1:] != want:
+                failures.append({'class': 'deserialize-variant-hook', 'key': it['name'],
+                                 'what': 'object of %s decoded directly from its tag (deserialize_variant) on input %s: %s, expected %s'
+                                         % (it['name'], arg, ' '.join(a[1:])[:300], ' '.join(want)),
+                                 'item': I.rust_item(it), 'input': arg})
+        elif op == 'entries':
+            if r != 'ok':
+                failures.append({'class': 'entry-point', 'key': it['name'],
+                                 'what': 'decoding entry points of %s disagree on input %s: %s' % (it['name'], arg, r[:400]),
                                  'item': I.rust_item(it), 'input': arg})
         elif op == 'tagdiscr':
             if r.startswith('enc'):
@@ -270,6 +346,25 @@ def run_seed(tier, seed, par, driver, stats, disagreements, failures, classes, d
             if not (r.startswith('ok same') or r.startswith('skip')):
                 failures.append({'class': 'roundtrip', 'key': it['name'], 'what': 'round trip of %s on %s: %s' % (it['name'], arg[:120], r[:160]),
                                  'item': I.rust_item(it), 'value': arg})
+    # ---- the same corpus against borsh with features = ["derive"] only (borsh-derive without its `schema` feature)
+    nst, ndis, nfails = deriveconf.noschema_stage(items, [(cid, tid, t, v) for cid, tid, t, v, _ in cases], recs, rng)
+    disagreements += ndis
+    failures += nfails
+    stats['evaluations'] += nst.pop('evaluations', 0)
+    for k_, v_ in nst.items():
+        if isinstance(v_, dict):
+            stats.setdefault(k_, {})
+            for a_, b_ in v_.items():
+                stats[k_][a_] = stats[k_].get(a_, 0) + b_
+        else:
+            stats[k_] = stats.get(k_, 0) + v_
+    # ---- #[borsh(crate = "reexporter::borsh")] in a crate that has no dependency called borsh (lib/deriveconf.py)
+    cst, cdis, cfails = deriveconf.crate_path_stage(driver, seed, tier)
+    disagreements += cdis
+    failures += cfails
+    stats['evaluations'] += cst.pop('evaluations', 0)
+    if first:
+        stats.update(cst)
     return exe, items
 
 
